@@ -1434,8 +1434,6 @@ int _vnadata_load_touchstone(vnadata_internal_t *vdip, FILE *fp,
 	}
 	if (_vnadata_set_simple_format(vdip, tps.tps_parameter_type,
 		    format_type) == -1) {
-	    _vnadata_error(vdip, VNAERR_SYSTEM,
-		    "malloc: %s", strerror(errno));
 	    goto out;
 	}
     }
